@@ -9,4 +9,6 @@ for id in "$@"; do
   (cd /verif && ./check "$id" --tier quick 2>&1 | grep -E "VIOLATION|KNOWN-FINDING|failing input|OK in|FAIL in|mismatch|obligation|correspondence:" | cut -c1-330 | head -12)
 done
 git -C /repo checkout -- .
+# evidence written while a seeded change was applied must never be committed
+git -C /verif checkout -- evidence 2>/dev/null
 git -C /repo status --short | head -3
